@@ -110,6 +110,63 @@ mutant("M17g", "C17", "yamlpath/commands/yaml_set.py",
             copy2(args.yaml_file, backup_file)""",
        "yaml-set keeps a stale .bak instead of replacing it")
 
+mutant("M17h", "C17", "yamlpath/commands/yaml_merge.py",
+       """    document_is_json = (
+        docs[0].prepare_for_dump(yaml_editor, args.output)
+        is OutputDocTypes.JSON)
+
+    dumps = []
+    for doc in docs:
+        doc.prepare_for_dump(yaml_editor, args.output)
+        dumps.append(doc.data)
+""",
+       """    document_is_json = False
+    dumps = []
+
+    def prepare():
+        nonlocal document_is_json
+        document_is_json = (
+            docs[0].prepare_for_dump(yaml_editor, args.output)
+            is OutputDocTypes.JSON)
+        for doc in docs:
+            doc.prepare_for_dump(yaml_editor, args.output)
+            dumps.append(doc.data)
+""",
+       "placeholder, completed below")
+_m = MUTANTS["M17h"]
+MUTANTS["M17h"] = (_m[0], _m[1], _m[2] + """
+    # Preparing the documents for the requested format can still fail, so
+    # the backup is taken only once there really is something to write.
+    if args.backup:
+        backup_file = args.overwrite + ".bak"
+        log.verbose(
+            "Saving a backup of {} to {}."
+            .format(args.overwrite, backup_file))
+        if exists(backup_file):
+            remove(backup_file)
+        copy2(args.overwrite, backup_file)
+
+    if args.output:
+        with open(args.output, 'w', encoding='utf-8') as out_fhnd:
+""", _m[3] + """
+    if args.backup:
+        backup_file = args.overwrite + ".bak"
+        log.verbose(
+            "Saving a backup of {} to {}."
+            .format(args.overwrite, backup_file))
+        if exists(backup_file):
+            remove(backup_file)
+        copy2(args.overwrite, backup_file)
+
+    if not args.output:
+        prepare()
+    if args.output:
+        with open(args.output, 'w', encoding='utf-8') as out_fhnd:
+            prepare()
+""", "yaml-merge prepares the documents for the output format only after "
+     "the output file was opened (truncated) and the backup taken (port of "
+     "seeded change S17h to the repaired code)")
+
 # ---------------------------------------------------------------- C16
 mutant("M16a", "C16", "yamlpath/commands/yaml_get.py",
        """    except YAMLPathException as ex:
@@ -140,11 +197,11 @@ mutant("M16c", "C16", "yamlpath/commands/yaml_diff.py",
        "is SAME)")
 
 mutant("M16d", "C16", "yamlpath/commands/yaml_validate.py",
-       """        proc_state = process_file(log, yaml, yaml_file)
+       """        proc_state = process_file(log, Parsers.get_yaml_editor(), yaml_file)
 
         if proc_state != 0:
             exit_state = proc_state""",
-       """        exit_state = process_file(log, yaml, yaml_file)""",
+       """        exit_state = process_file(log, Parsers.get_yaml_editor(), yaml_file)""",
        "yaml-validate: the last file's state wins")
 
 mutant("M16e", "C16", "yamlpath/common/parsers.py",
@@ -243,15 +300,15 @@ mutant("M03a", "C03", "yamlpath/processor.py",
        "recurse compares hash values with == inside the parent")
 
 mutant("M03b", "C03", "yamlpath/common/nodes.py",
-       """        if new_node is None:
-            if hasattr(source_node, "anchor") and source_node.anchor.value:
+       """            elif hasattr(source_node, "anchor") and source_node.anchor.value:
                 new_node = new_type(new_value, anchor=source_node.anchor.value)
-            elif new_type is not type(None):""",
-       """        if new_node is None:
-            if (hasattr(source_node, "anchor") and source_node.anchor.value
+            else:
+                new_node = new_type(new_value)""",
+       """            elif (hasattr(source_node, "anchor") and source_node.anchor.value
                     and isinstance(source_node, str)):
                 new_node = new_type(new_value, anchor=source_node.anchor.value)
-            elif new_type is not type(None):""",
+            else:
+                new_node = new_type(new_value)""",
        "make_new_node keeps the anchor only when the old node was a string")
 
 mutant("M03c", "C03", "yamlpath/processor.py",
